@@ -35,6 +35,7 @@ type Schema struct {
 	AddlK    string   `json:"addlK,omitempty"` // "" (silent) | any | schema | false
 	Addl     *Schema  `json:"addl,omitempty"`
 	Of       []Schema `json:"of,omitempty"`
+	AlsoReq  []string `json:"alsoReq,omitempty"` // allOf: a `required` list written next to the allOf (names declared by the members)
 	DiscProp string   `json:"discProp,omitempty"`
 	DiscMap  []KV     `json:"discMap,omitempty"` // value -> component schema name
 	To       string   `json:"to,omitempty"`
@@ -48,6 +49,9 @@ type Param struct {
 	Schema Schema `json:"schema"`
 	Ref    string `json:"ref,omitempty"` // non-empty: $ref to components.parameters[Ref]; other fields describe the target
 	Desc   string `json:"desc,omitempty"`
+	// Attrs: further keys of the parameter object, written as they are (serialisation attributes at their default
+	// values, allowReserved, deprecated, examples ...): none of them changes what a round trip must deliver
+	Attrs map[string]any `json:"attrs,omitempty"`
 }
 
 type Header struct {
@@ -256,6 +260,9 @@ func schemaJSON(s Schema) map[string]any {
 			of = append(of, schemaJSON(x))
 		}
 		m[s.K] = of
+		if s.K == "allOf" && len(s.AlsoReq) > 0 {
+			m["required"] = s.AlsoReq
+		}
 		if s.K == "oneOf" && s.DiscProp != "" {
 			d := map[string]any{"propertyName": s.DiscProp}
 			if len(s.DiscMap) > 0 {
@@ -281,6 +288,9 @@ func paramJSON(p Param) map[string]any {
 		return map[string]any{"$ref": "#/components/parameters/" + p.Ref}
 	}
 	m := map[string]any{"name": p.Name, "in": p.In, "schema": schemaJSON(p.Schema)}
+	for k, v := range p.Attrs {
+		m[k] = v
+	}
 	if p.Req {
 		m["required"] = true
 	}
